@@ -1394,6 +1394,18 @@ restore:
   return true;
 }
 
+/* A window receives input only while it and all of its ancestors are visible.
+ * Handlers may hide windows in the middle of a dispatch, and a drag source is
+ * entered directly, so the path taken to reach a window proves nothing */
+static bool _is_shown(const TickitWindow *win)
+{
+  for(; win; win = win->parent)
+    if(!win->is_visible)
+      return false;
+
+  return true;
+}
+
 /* A counted snapshot of the children of win, so that event handlers may close or
  * drop any of them while the list is being walked */
 static size_t _ref_children(TickitWindow *win, TickitWindow ***childrenp)
@@ -1421,7 +1433,7 @@ static void _unref_children(TickitWindow **children, size_t n)
 
 static int _handle_key(TickitWindow *win, TickitKeyEventInfo *info)
 {
-  if(!win->is_visible)
+  if(!_is_shown(win))
     return 0;
 
   int ret = 1;
@@ -1435,7 +1447,7 @@ static int _handle_key(TickitWindow *win, TickitKeyEventInfo *info)
     if(_handle_key(win->focused_child, info))
       goto done;
 
-  if(run_events_whilefalse(win, TICKIT_WINDOW_ON_KEY, info))
+  if(_is_shown(win) && run_events_whilefalse(win, TICKIT_WINDOW_ON_KEY, info))
     goto done;
 
   // Last-ditch attempt to spread it around other children
@@ -1473,7 +1485,7 @@ done:
 /* Returns a counted reference to the window that took the event, or NULL */
 static TickitWindow *_handle_mouse(TickitWindow *win, TickitMouseEventInfo *info)
 {
-  if(!win->is_visible)
+  if(!_is_shown(win))
     return NULL;
 
   TickitWindow *ret;
@@ -1513,7 +1525,7 @@ static TickitWindow *_handle_mouse(TickitWindow *win, TickitMouseEventInfo *info
       goto done;
   }
 
-  if(run_events_whilefalse(win, TICKIT_WINDOW_ON_MOUSE, info)) {
+  if(_is_shown(win) && run_events_whilefalse(win, TICKIT_WINDOW_ON_MOUSE, info)) {
     /* The handler may have closed this window or dropped every other
      * reference to it; its claim stands all the same, so the caller gets a
      * reference of its own */
